@@ -29,7 +29,7 @@ class RsaKeySizeTransformer(LibcstResultTransformer):
             new_args = [original_node.args[0], self.make_new_arg(RSA_KEYSIZE)]
         else:
             new_args = self.replace_args(
-                original_node,
+                updated_node,
                 [NewArg(name="key_size", value=RSA_KEYSIZE, add_if_missing=False)],
             )
         return self.update_arg_target(updated_node, new_args)
